@@ -13,6 +13,9 @@ Oracle: the dense float64 reference `A = refmodel.dense(recipe)` (independent of
 dtype, `n` the matrix size, `D` the recipe depth.  All norms of differences are max-abs over the entries of a member.
 
     E  = C_DIRECT * D * n * u * nrm      C_DIRECT = 1024   (backward error of a direct factorization, DESIGN 3)
+         (* gamma for recipes containing SumKronecker / KroneckerAddedDiag, whose structured paths factor through a *part* of the
+         operator [K2^{-1/2} K1 K2^{-T/2} + I, D^{-1/2} K D^{-1/2} + I] and therefore amplify relative errors by the condition of
+         that part: gamma = largest norm of any symmetric PSD node / smallest positive lambda_min of any such node)
     O  = C_DIRECT * D * n * u            (orthonormality)
     JS = (sum of the jitters announced by NumericalWarning "added jitter of X" while the operator was constructed and
           while the operation ran) * (1 + mu)^(D-1),   mu = max(1, largest |entry| of any node of the recipe):
@@ -33,11 +36,12 @@ dtype, `n` the matrix size, `D` the recipe depth.  All norms of differences are 
             every run reached k = n' (Krylov space = whole space):  |R R^T - A| <= E + JS + LS
             otherwise, with P an orthonormal basis of span(R) (eigenvectors of R R^T above thr * top, thr = 1e-3 / 1e-7
             for f32 / f64):  |R R^T - P (P^T A P) P^T| <= E + JS + LS + (thr + 4u/thr) nrm   (orthogonal compression)
-        pivoted_cholesky: k <= op._root_decomposition_size() (the class's documented rank hook; the setting by default), lambda_min(A - R R^T) >= -(E + JS) (under-approximation),
+        pivoted_cholesky: lambda_min(A - R R^T) >= -(E + JS) (under-approximation),
             |R R^T - A| <= E + JS when k = n, tr(A - R R^T) <= (1e-3 + 64 n u) * n * max diag A when it stopped with
             k < min(size, n) (its documented stopping rule, preconditioner_tolerance = 1e-3 on the normalised residual).
     root_inv_decomposition(method) -- PD operators only:  R as above;
-        direct: |A R R^T - I| <= min-over-nothing C_DIRECT D n u kappa + JS / lmin   (skipped, labelled, when that
+        (kappa is replaced by max(kappa, gamma) for nested recipes: structured inverses multiply the inverses of parts)
+        direct: |A R R^T - I| <= C_DIRECT D n u kappa + JS / lmin   (skipped, labelled, when that
         exceeds 0.05 or lmin <= 2e-7 -- the documented clamp of inverse eigenvalues at 1e-7)
         Lanczos run recorded (lanczos, None above the threshold, pinverse of a Lanczos root), all runs regular:
         |R^T A R - I_k| <= 2 kappa (LS/nrm + C_DIRECT D n u) (skipped when that exceeds 0.05); equivalent to
@@ -60,7 +64,7 @@ member) are attributed to that entry (label `attributed:<id>`), never re-reporte
 by construction while they are open.
 
 Violation signature: "C06|<operation:method>|<sub-check>|<head class>|<symptom>", sub-check in {recon, orth, tri, sign,
-shape, dtype, finite, rank, exc}.  Before a failure is reported the same case is re-run on every proper sub-recipe that
+shape, dtype, finite, exc}.  Before a failure is reported the same case is re-run on every proper sub-recipe that
 is itself a symmetric PSD (PD for inverse roots) operator; the smallest failing one gets the blame.
 """
 import contextlib
@@ -97,6 +101,7 @@ ASSUMPTIONS = [
     "jitter is accounted only when the library announced it with a NumericalWarning (its size is parsed from the message)",
     "eigh / eigvalsh with an externally injected 'symeig' cache entry (returning (evals, None)) are not generated",
     "ZeroLinearOperator (declares itself not positive definite) and triangular classes are not PSD operands",
+    "KroneckerProductAddedDiagLinearOperator with a Kronecker-structured diagonal containing zeros is not sent down its `_root_decomposition` / `_root_inv_decomposition` (they form D^{-1/2}: the diagonal is a positive noise term by construction of the class)",
     "method='pivoted_cholesky' is not requested for operators with an all-zero batch member (normalised residual 0/0; pivoted_cholesky documents a positive definite argument)",
 ]
 WALL_GUARD = {"quick": 600, "thorough": 3000}
@@ -137,8 +142,26 @@ def _rec(name, dtn, ratio):
 # ------------------------------------------------------------------------------------------------
 # known findings -> generator-side exclusion
 # ------------------------------------------------------------------------------------------------
+_ENTRIES = None
+
+
 def _open_entries():
-    return [e for e in load_findings() if e.get("status", "open") == "open"]
+    """Open entries of known_findings.json, read once per process (the file is read-only at run time)."""
+    global _ENTRIES
+    if _ENTRIES is None:
+        import time
+
+        last = None
+        for _ in range(5):
+            try:
+                _ENTRIES = [e for e in load_findings() if e.get("status", "open") == "open"]
+                break
+            except ValueError as e:  # the lead may be rewriting the file at this very moment
+                last = e
+                time.sleep(0.5)
+        else:
+            raise HarnessError("known_findings.json unreadable: %r" % (last,))
+    return _ENTRIES
 
 
 def _open_triggers(prop=None):
@@ -241,6 +264,13 @@ def _kpad_kron_diag_nonunit(nd):
     return False
 
 
+def _kpad_singular_kron_diag(nd):
+    d = _kpad_diag(nd)
+    if d["op"] != "KroneckerDiag":
+        return False
+    return bool((refmodel.dense(d).diagonal(dim1=-2, dim2=-1) <= 0).any())
+
+
 def _kpad_kron_const_batched(nd):
     d = _kpad_diag(nd)
     return d["op"] == "KroneckerDiag" and all(a["op"] == "ConstantDiag" for a in d["args"]) and len(refmodel.shape(nd)) > 2
@@ -295,28 +325,22 @@ def _krylov_deficient(r):
 
 
 def _t_block_root(case):
-    """Block operators wrap the (n x k) Lanczos root of their base in their own class, which needs square blocks."""
+    """Block operators wrap the Lanczos root of their base (a Tensor, n x k) in their own class, which needs square blocks held
+    by a LinearOperator: broken when k < n (truncation / early stop), when probes are passed on, and for every further use of
+    the wrapped Tensor by an enclosing operator."""
     if case["op"] not in ("root", "root_inv") or not _lz_possible(case):
         return False
-    for nd in R.walk(case["recipe"]):
+    r = case["recipe"]
+    for nd in R.walk(r):
         if nd["op"] in ("BlockDiag", "BlockInterleaved") and not gen.is_diag_instance(nd):
             p = refmodel.shape(nd["base"])[-1]
-            if _mrds_eff(case) < p or _krylov_deficient(nd["base"]):
+            if nd is not r or _mrds_eff(case) < p or _krylov_deficient(nd["base"]) or case.get("init"):
                 return True
-            if case.get("init"):
-                return True  # the probes of the whole operator are handed to the base unchanged
     return False
 
 
 def _is_svd_path(case):
     return case["op"] in ("svd", "tl_svd") or (case["op"] in ("root", "root_inv") and case.get("method") == "svd")
-
-
-def _numerically_singular(case):
-    ref = _reference(case["recipe"])
-    n = ref["n"]
-    u = U[R.dtype_of(case["recipe"])]
-    return bool((ref["lmin"] <= 64.0 * n * u * ref["nrm"] * ref["depth"]).any())
 
 
 def _singular_recipe(r):
@@ -325,29 +349,53 @@ def _singular_recipe(r):
     return bool((ref["lmin"] <= 64.0 * ref["n"] * u * ref["nrm"] * ref["depth"]).any())
 
 
+def _const_diag_summand(nd):
+    """(constant diagonal, other summand) of an AddedDiag-like node whose `_symeig` / `_svd` shift the spectrum of the other, else None"""
+    if nd["op"] not in ("AddedDiag", "LowRankRootAddedDiag", "KroneckerAddedDiag"):
+        return None
+    d = next((a for a in nd["args"] if a["op"] in ("ConstantDiag", "Identity")), None)
+    if d is None:
+        return None
+    return d, next(a for a in nd["args"] if a is not d)
+
+
 def _t_svd_singular(case):
     """svd-based result of a numerically singular PSD operator -- or of K + c I whose `_svd` shifts the singular values of a
-    singular K (AddedDiag / KroneckerAddedDiag with a constant diagonal)."""
+    singular K (AddedDiag / LowRankRootAddedDiag / KroneckerAddedDiag with a constant diagonal)."""
     if not _is_svd_path(case):
         return False
-    if case.get("dom") != "pd" and _numerically_singular(case):
+    if case.get("dom") != "pd" and _singular_recipe(case["recipe"]):
         return True
     for nd in R.walk(case["recipe"]):
-        if nd["op"] in ("AddedDiag", "KroneckerAddedDiag"):
-            d = next((a for a in nd["args"] if a["op"] in ("ConstantDiag", "Identity")), None)
-            if d is not None and any(_singular_recipe(a) for a in nd["args"] if a is not d):
-                return True
+        cs = _const_diag_summand(nd)
+        if cs is not None and _singular_recipe(cs[1]):
+            return True
     return False
 
 
-def _diag_evecs(r, for_root):
-    """Would the eigenvector operator the operation multiplies by a row / column of eigenvalues be a DiagLinearOperator?"""
+def _diag_evecs(r, kind, case):
+    """Does the operation reach a node whose eigenvector operator is a DiagLinearOperator (which is then multiplied by a
+    row / column of eigenvalues)?  kind = "svd" (op.svd()) or "root" (root / inverse root with an eigen-method)."""
     if gen.is_diag_instance(r):
         return True
-    if r["op"] == "BatchRepeat":
-        return _diag_evecs(r["base"], for_root)
-    if r["op"] == "ConstantMul" and for_root:
-        return _diag_evecs(r["base"], for_root)
+    op = r["op"]
+    if op == "BatchRepeat":
+        return _diag_evecs(r["base"], kind, case)
+    if kind == "root":
+        if op == "ConstantMul" and case["op"] == "root":
+            return _diag_evecs(r["base"], kind, case)
+        if op == "Kronecker" and case["op"] == "root" and _mcs(case) is not None and refmodel.shape(r)[-1] > _mcs(case):
+            return any(_diag_evecs(a, kind, case) for a in r["args"])
+        if op == "BlockDiag":  # _symeig wraps the eigenvectors of the blocks in BlockDiag(...), folded to a diagonal operator
+            return _diag_evecs(r["base"], kind, case)
+        return False
+    if op == "Kronecker":
+        return any(_diag_evecs(a, kind, case) for a in r["args"])
+    if op == "BlockDiag":
+        return _diag_evecs(r["base"], kind, case)
+    cs = _const_diag_summand(r)
+    if cs is not None:
+        return _diag_evecs(cs[1], kind, case)
     return False
 
 
@@ -359,9 +407,9 @@ def _t_diag_evecs(case):
             return False  # 1 x 1: answered before the method is looked at
         if m == "diagonalization" and _above(case):
             return False  # Lanczos eigenvectors are dense
-        return _diag_evecs(r, opn == "root")
+        return _diag_evecs(r, "root", case) or (m == "svd" and _diag_evecs(r, "svd", case))
     if opn in ("svd", "tl_svd"):
-        return _diag_evecs(r, False)
+        return _diag_evecs(r, "svd", case)
     return False
 
 
@@ -522,6 +570,11 @@ def normalise(case):
             # positive definite operator; low rank is its purpose, the zero matrix is outside it)
             case["method"] = "symeig"
             avoided.append("pivoted_cholesky_zero_member")
+    if _reaches_private_root(case) and any(_kpad_singular_kron_diag(nd) for nd in _nodes(case, "KroneckerAddedDiag")):
+        # precondition of the class: its Kronecker-diagonal paths form D^{-1/2} (comments in the source; the diagonal is a
+        # noise term in every caller), so a diagonal with zero entries is outside the domain of these paths
+        case = _direct(case)
+        avoided.append("kpad_singular_diagonal(precondition)")
     for name in sorted(TRIGGERS):
         if name in opened and TRIGGERS[name](case):
             case = _avoid_own(case, name)
@@ -607,7 +660,30 @@ def _reference(r):
         v = L.value(l, F64)
         if v.numel():
             mu = max(mu, float(v.abs().max()))
-    out = {"r": r, "A": A, "w": w, "nrm": nrm, "lmin": lmin, "n": A.shape[-1], "batch": tuple(A.shape[:-2]), "mu": mu, "depth": R.depth(r)}
+    # amplification of relative errors by structured paths that invert / symmetrise with a *part* of the operator
+    # (SumKronecker: K2^{-1/2} K1 K2^{-T/2} + I; KroneckerAddedDiag: D^{-1/2} K D^{-1/2} + I; Kronecker: factor inverses):
+    # gamma = (largest norm of any symmetric PSD node) / (smallest positive lambda_min of any such node) >= kappa(A)
+    top = float(nrm.max()) if nrm.numel() else 0.0
+    lows = [float(lmin.min())] if lmin.numel() and float(lmin.min()) > 0 else []
+    for nd in R.walk(r):
+        if nd is r or nd["op"] == "Tensor":
+            continue
+        try:
+            M = refmodel.dense(nd).to(F64)
+        except Exception:
+            continue
+        if M.dim() < 2 or M.shape[-1] != M.shape[-2] or not M.numel():
+            continue
+        if float((M - M.transpose(-1, -2)).abs().max()) > 1e-12 * (1.0 + float(M.abs().max())):
+            continue
+        wn = torch.linalg.eigvalsh(0.5 * (M + M.transpose(-1, -2)))
+        if float(wn.min()) < -1e-10 * (1.0 + float(wn.abs().max())):
+            continue
+        top = max(top, float(wn.abs().max()))
+        if float(wn.min()) > 0:
+            lows.append(float(wn.min()))
+    gamma = max(1.0, top / min(lows)) if lows else 1.0  # (numerically singular nodes are not inverted by any path)
+    out = {"r": r, "A": A, "w": w, "nrm": nrm, "lmin": lmin, "n": A.shape[-1], "batch": tuple(A.shape[:-2]), "mu": mu, "depth": R.depth(r), "gamma": gamma}
     if len(_REF_CACHE) > 32:
         _REF_CACHE.clear()
     _REF_CACHE[key] = out
@@ -777,6 +853,28 @@ def _attribute(kind, case, runs, res_nan=False):
     return None
 
 
+# an exception counts as the library *declining the operation* only if it has the form of an explicit "not supported"
+# (lov.exc.is_declined) AND is about this factorization: raised by one of its own methods or naming it
+_DECLINE = {
+    "cholesky": (("cholesky", "_cholesky"), r"cholesky"),
+    "root": (("root_decomposition", "_root_decomposition", "cholesky", "_cholesky"), r"root.decomposition|cholesky"),
+    "root_inv": (("root_inv_decomposition", "_root_inv_decomposition", "cholesky", "_cholesky"), r"root|cholesky"),
+    "eigh": (("eigh", "eigvalsh", "_symeig", "diagonalization"), r"symeig|eigh|eigenval|diagonaliz"),
+    "svd": (("svd", "_svd", "_torch_linalg_svd", "_symeig"), r"svd|symeig"),
+}
+_DECLINE_OF = {"tl_cholesky": "cholesky", "tl_eigh": "eigh", "eigvalsh": "eigh", "tl_eigvalsh": "eigh", "diag": "eigh", "tl_svd": "svd"}
+
+
+def _declined(err, opn):
+    import traceback
+
+    if not X.is_declined(err, None):
+        return False
+    frames, kw = _DECLINE[_DECLINE_OF.get(opn, opn)]
+    tb = traceback.extract_tb(err.__traceback__)
+    return bool(tb and tb[-1].name in frames) or bool(re.search(kw, str(err), re.I))
+
+
 class _Skip(Exception):
     def __init__(self, label):
         self.label = label
@@ -850,8 +948,12 @@ def run_case(case):
         labels.append("lanczos:%s" % ("irregular" if not runs["regular"] else ("full" if runs["full"] else "truncated")))
 
     mu = ref["mu"]
-    JS = jit * (1.0 + mu) ** max(0, depth - 1)
-    E = C_DIRECT * depth * n * u * nrm  # (*batch,)
+    JS = 1.001 * jit * (1.0 + mu) ** max(0, depth - 1)  # (1.001: the jitter itself is rounded in the operator dtype)
+    # structured paths that factor through a part of the operator amplify relative errors by gamma (see _reference)
+    amp_classes = any(nd["op"] in ("SumKronecker", "KroneckerAddedDiag") for nd in R.walk(r))
+    gamma = ref["gamma"]
+    amp = min(gamma, 1.0 / (C_DIRECT * n * u)) if amp_classes else 1.0
+    E = C_DIRECT * depth * n * u * nrm * amp  # (*batch,)
     O = C_DIRECT * depth * n * u
     singular = lmin <= 64.0 * n * u * nrm * depth + JS  # numerically singular members
 
@@ -879,7 +981,7 @@ def run_case(case):
             if bool(singular.any()):
                 return result(False, ["outcome:notpsd-accepted"])
             fail("exc", "exc:" + X.describe(err), "NotPSDError for a well-conditioned operator (lambda_min/nrm >= %.3g): %s" % (float((lmin / nrm.clamp_min(1e-300)).min()), err))
-        if X.is_declined(err, None):
+        if _declined(err, case["op"]):
             return result(False, ["outcome:declined", "declined:%s:%s" % (head, case["op"])])
         fail("exc", "exc:" + X.describe(err), "%s raised %r" % (opname, err))
 
@@ -957,9 +1059,9 @@ def run_case(case):
             G = Rm @ mT(Rm)
             method = case.get("method")
             if method == "pivoted_cholesky":
+                # (no bound on k is asserted: structured classes multiply the ranks of their parts -- a Kronecker product of
+                #  rank-2 pivoted factors has 4 columns -- and RootLinearOperator returns its own root)
                 size = min(int(hook_size), n)
-                if k > int(hook_size):
-                    fail("rank", "shape", "pivoted-Cholesky root has %d columns > _root_decomposition_size() = %d" % (k, int(hook_size)))
                 resid = A - G
                 lam = torch.linalg.eigvalsh(0.5 * (resid + mT(resid))).amin(-1)
                 bnd = E + JS + tol.TINY
@@ -993,6 +1095,8 @@ def run_case(case):
             expect_finite("inverse root", Rr)
             k = Rm.shape[-1]
             kappa = nrm / lmin.clamp_min(1e-300)
+            if depth > 1:
+                kappa = torch.maximum(kappa, torch.full_like(kappa, min(gamma, 1e300)))
             method = case.get("method")
             if bool((lmin <= 2e-7).any()):
                 value_checked = False
@@ -1009,7 +1113,7 @@ def run_case(case):
                     else:
                         within("recon", "R^T A R = I_k (Lanczos inverse root)", mT(Rm) @ A @ Rm, torch.eye(k, dtype=F64).expand(*batch, k, k), bnd)
             else:
-                bnd = C_DIRECT * depth * n * u * kappa + JS / lmin
+                bnd = C_DIRECT * depth * n * u * kappa * (amp if amp_classes else 1.0) + JS / lmin
                 if float(bnd.max()) > INV_MAX:
                     value_checked = False
                     labels.append("skip:inverse-illcond")
